@@ -26,6 +26,12 @@ type PairScn struct {
 	OneSided     bool      `json:"one_sided_visibility"`
 	SlowApp      [2]int    `json:"slow_app_ms"` // how long the applications' disconnect / setup callbacks take
 	Disturbs     []Disturb `json:"disturbs"`
+	// OneSidedPhase: A has registered B and dials, B's user has not registered A yet (request pending at B); a
+	// disturbance hits that connection; only afterwards B registers A
+	OneSidedPhase string `json:"one_sided_phase,omitempty"` // "", cut, disconnect:A, disconnect:B, restart:B, restart:A, none
+	// EarlyCut: milliseconds after the (simultaneous) registrations at which all TCP connections are cut, while the
+	// first connections / the double connection are being set up (-1: no early cut)
+	EarlyCut int `json:"early_cut_ms"`
 	// Churn: after the final convergence that many further close / reconnect cycles, each followed by a
 	// settled checkpoint (C18: last notification = current state; C11: last of setup/disconnected)
 	Churn int `json:"churn,omitempty"`
@@ -62,6 +68,14 @@ func genPair(r *vc.Rand) *PairScn {
 	}
 	if r.Chance(1, 3) {
 		sc.Churn = r.Range(3, 8)
+	}
+	sc.EarlyCut = -1
+	if r.Chance(1, 5) {
+		// both start unregistered, A registers, the request waits at B, something happens to that connection
+		sc.RegBefore, sc.Simultaneous, sc.OneSided = [2]bool{false, false}, false, false
+		sc.OneSidedPhase = vc.Pick(r, []string{"cut", "cut", "disconnect:A", "disconnect:B", "restart:B", "restart:A", "none"})
+	} else if sc.Simultaneous && r.Chance(1, 2) {
+		sc.EarlyCut = vc.Pick(r, []int{0, 1, 2, 3, 4, 5, 6, 8, 12, 16, 20, 25})
 	}
 	return sc
 }
@@ -183,11 +197,50 @@ func runPair(sc *PairScn) (res pairResult) {
 			b.Register(a.SKI)
 		}
 	}
-	if sc.Simultaneous {
+	if sc.OneSidedPhase != "" {
+		late()
+		// the request is pending at B (its user has not decided), A waits
+		WaitFor(10*time.Second, func() bool { return b.PairingState(a.SKI) == 3 })
+		time.Sleep(time.Duration(50+len(sc.Disturbs)*130) * time.Millisecond)
+		nw.L.Add("H", "disturb", "", "one-sided:"+sc.OneSidedPhase, 0)
+		switch sc.OneSidedPhase {
+		case "cut":
+			nw.Proxy(a, b).Cut()
+			nw.Proxy(b, a).Cut()
+		case "disconnect:A":
+			a.Disconnect(b.SKI)
+		case "disconnect:B":
+			b.Disconnect(a.SKI)
+		case "restart:B":
+			b.Restart()
+			b.App.Echo.Store(true)
+			b.Start()
+		case "restart:A":
+			a.Restart()
+			a.App.Echo.Store(true)
+			a.Register(b.SKI)
+			a.Start()
+		}
+		time.Sleep(time.Duration(200+len(sc.Disturbs)*400) * time.Millisecond)
+		b.Register(a.SKI)
+	} else if sc.Simultaneous {
 		done := make(chan struct{})
 		go func() { late(); close(done) }()
 		lateB()
 		<-done
+		if sc.EarlyCut >= 0 {
+			// when the second TCP connection between the two is there (a double connection is being resolved, or
+			// the first one is being replaced), a little later everything is cut
+			acc := func() int32 { return nw.Proxy(a, b).Accepts.Load() + nw.Proxy(b, a).Accepts.Load() }
+			deadline := time.Now().Add(4 * time.Second)
+			for acc() < 2 && time.Now().Before(deadline) {
+				time.Sleep(100 * time.Microsecond)
+			}
+			time.Sleep(time.Duration(sc.EarlyCut) * time.Millisecond)
+			nw.L.Add("H", "disturb", "", "early-cut", sc.EarlyCut)
+			nw.Proxy(a, b).Cut()
+			nw.Proxy(b, a).Cut()
+		}
 	} else {
 		late()
 		time.Sleep(30 * time.Millisecond)
@@ -338,7 +391,7 @@ func runPair(sc *PairScn) (res pairResult) {
 		// churn: further connection runs that end in the state reported last (completed again)
 		cr := vc.NewRand(uint64(len(sc.Disturbs))*1000+uint64(sc.Churn), "churn", 0)
 		for k := 0; k < sc.Churn; k++ {
-			op := vc.Pick(cr, []string{"disconnect:A", "disconnect:B", "cut", "both-disconnect"})
+			op := vc.Pick(cr, []string{"disconnect:A", "disconnect:B", "cut", "both-disconnect", "double-cut", "double-cut"})
 			nw.L.Add("H", "disturb", "", "churn:"+op, 0)
 			switch op {
 			case "disconnect:A":
@@ -351,6 +404,21 @@ func runPair(sc *PairScn) (res pairResult) {
 				b.Disconnect(a.SKI)
 				<-done
 			case "cut":
+				nw.Proxy(a, b).Cut()
+				nw.Proxy(b, a).Cut()
+			case "double-cut":
+				// both sides close and redial at once; when the second new TCP connection is there (a double
+				// connection is being resolved) everything is cut a few milliseconds later
+				n0 := accepts()
+				done := make(chan struct{})
+				go func() { a.Disconnect(b.SKI); close(done) }()
+				b.Disconnect(a.SKI)
+				<-done
+				deadline := time.Now().Add(4 * time.Second)
+				for accepts() < n0+2 && time.Now().Before(deadline) {
+					time.Sleep(100 * time.Microsecond)
+				}
+				time.Sleep(time.Duration(cr.Intn(25)) * time.Millisecond)
 				nw.Proxy(a, b).Cut()
 				nw.Proxy(b, a).Cut()
 			}
